@@ -335,10 +335,10 @@ func TestSim(t *testing.T) {
 func reportViolation(t *testing.T, sc *Scenario, res *RunResult, v Violation, tier, replayDir string) violationLine {
 	orig := res.Tape
 	budget := 45 * time.Second
-	maxCand := 400
+	maxCand := 6000
 	if tier == "quick" {
-		budget = 20 * time.Second
-		maxCand = 250
+		budget = 15 * time.Second
+		maxCand = 3000
 	}
 	isRace := strings.HasPrefix(v.Sig, "RACE")
 	var small []int
